@@ -187,7 +187,8 @@ Section Record.
     do cwd' <- enter_base cwd base_path;
     hash_uris o cwd' uris [].
 
-  (** DirectoryResolver.hash_artifacts: it is NOT given base_path; its own FileResolver has no lstrip list *)
+  (** DirectoryResolver.hash_artifacts: entered from the base path like the other resolvers (see [resolver_hash];
+      fixed defect D11a: it used to ignore the base path); its own FileResolver has no lstrip list *)
   Definition dir_mangle (lstrip : list str) (path : str) (existing : list str) : res str :=
     mangle lstrip path existing s_dir_colon.
   Fixpoint dir_hash_uris (o : fopts) (cwd : list str) (uris : list str) (acc : dict) : res dict :=
@@ -231,7 +232,7 @@ Section Record.
   Definition resolver_hash (o : fopts) (base_path : option str) (cwd : list str) (g : scheme * list str) : res dict :=
     match fst g with
     | SFile => file_hash_artifacts o base_path cwd (snd g)
-    | SDir => dir_hash_uris o cwd (snd g) []
+    | SDir => do cwd' <- enter_base cwd base_path; dir_hash_uris o cwd' (snd g) []
     | SOstree => do cwd' <- enter_base cwd base_path; ostree_hash_uris cwd' (snd g) []
     end.
 
